@@ -32,7 +32,7 @@ func (d *Dataset) Quantile(q float64) float64 {
 }
 
 func (d *Dataset) LowerQuantile(q float64) float64 {
-	if q < 0 || q > 1 || d.Count == 0 {
+	if !(q >= 0 && q <= 1) || d.Count == 0 {
 		return math.NaN()
 	}
 
@@ -42,7 +42,7 @@ func (d *Dataset) LowerQuantile(q float64) float64 {
 }
 
 func (d *Dataset) UpperQuantile(q float64) float64 {
-	if q < 0 || q > 1 || d.Count == 0 {
+	if !(q >= 0 && q <= 1) || d.Count == 0 {
 		return math.NaN()
 	}
 
